@@ -35,7 +35,7 @@ ASSUMPTIONS = [
     "two same-seed generators constructed before either is used diverge (global RNG): observed, not judged",
     "allow_less_jobs_than_machines=False is judged only when min_jobs >= min_machines (satisfiable)",
 ]
-REQUIRED_COUNTERS = {"instances_checked": 1500, "seed_twin_pairs": 100, "iteration_checks": 100,
+REQUIRED_COUNTERS = {"seed_zero_generators": 10, "conflicting_flag_cases": 20, "instances_checked": 1500, "seed_twin_pairs": 100, "iteration_checks": 100,
                      "flag_no_less_jobs_instances": 150, "multi_machine_support_checks": 20,
                      "no_recirculation_permutation_checks": 300}
 WORKERS = {"quick": 1, "thorough": 14}
@@ -47,8 +47,13 @@ def gen_cases(ctx):
         lo_j = rng.randint(1, 6); hi_j = lo_j + rng.choice([0, 0, 1, 3, 5])
         lo_m = rng.randint(1, 6); hi_m = lo_m + rng.choice([0, 0, 1, 3, 5])
         flag = rng.random() < 0.35
-        if flag:  # keep the jobs-vs-machines constraint satisfiable
+        conflict = False
+        if flag and rng.random() < 0.7:  # keep the jobs-vs-machines constraint satisfiable
             lo_m = rng.randint(1, lo_j); hi_m = lo_m + rng.choice([0, 1, 3, 6])
+        elif flag:
+            # machine range may lie (partly) above the job range: then only "jobs >= machines"
+            # and "machines <= requested maximum" are judged (the two requests conflict)
+            conflict = True
         p = {
             "num_jobs": lo_j if (lo_j == hi_j and rng.random() < 0.5) else [lo_j, hi_j],
             "num_machines": lo_m if (lo_m == hi_m and rng.random() < 0.5) else [lo_m, hi_m],
@@ -56,7 +61,7 @@ def gen_cases(ctx):
             "allow_less_jobs_than_machines": not flag,
             "allow_recirculation": rng.random() < 0.4,
             "machines_per_operation": 1,
-            "seed": rng.randrange(10**6),
+            "seed": rng.choice([0, 0, 1, 2**31 - 1] + [rng.randrange(10**6)] * 16),
             "iteration_limit": rng.choice([None, 1, 3, 7]),
         }
         if i % 4 == 3:  # flexible
@@ -67,7 +72,8 @@ def gen_cases(ctx):
                 p["num_machines"] = [k_hi, k_hi + rng.choice([0, 2, 4])]
                 if flag:
                     p["num_jobs"] = [k_hi + rng.choice([0, 1]), k_hi + 5]
-        yield {"params": p, "draws": 10, "seed": rng.randrange(2**31), "instance": {"cls": "generated"}}
+        yield {"params": p, "draws": 10, "seed": rng.randrange(2**31), "instance": {"cls": "generated"},
+               "conflict": conflict}
 
 
 def rng_pair(x):
@@ -87,7 +93,7 @@ def dump(inst):
     return [[(tuple(op.machines), op.duration) for op in job] for job in inst.jobs]
 
 
-def check_instance(ctx, p, inst, forced=None):
+def check_instance(ctx, p, inst, forced=None, conflict=False):
     jr, mr = rng_pair(p["num_jobs"]), rng_pair(p["num_machines"])
     kr = rng_pair(p["machines_per_operation"])
     dr = tuple(p["duration_range"])
@@ -109,7 +115,8 @@ def check_instance(ctx, p, inst, forced=None):
         if M != forced[1]:
             errs.append(f"explicit num_machines={forced[1]} but {M} operations per job")
     elif not mr[0] <= M <= mr[1]:
-        errs.append(f"{M} operations per job outside machine range {mr}")
+        if not (conflict and J < mr[0] and M <= mr[1]):
+            errs.append(f"{M} operations per job outside machine range {mr}")
     for job in jobs:
         for ms, d in job:
             if not dr[0] <= d <= dr[1]:
@@ -146,7 +153,7 @@ def run_case(ctx, case):
     kr = rng_pair(p["machines_per_operation"])
     for k in range(case["draws"]):
         inst = g1.generate()
-        errs, M, jobs = check_instance(ctx, p, inst)
+        errs, M, jobs = check_instance(ctx, p, inst, conflict=case.get("conflict", False))
         if errs:
             ctx.violation("c19_instance_violates_requested_shape",
                           {"params": p, "errors": errs[:5], "draw": k, "instance": jobs})
@@ -159,6 +166,10 @@ def run_case(ctx, case):
     if len(set(names)) != len(names):
         ctx.violation("c19_name_reused", {"params": p, "names": names})
     # multi-machine operations must be drawn from all M machines
+    if p["seed"] == 0:
+        ctx.count("seed_zero_generators")
+    if case.get("conflict"):
+        ctx.count("conflicting_flag_cases")
     if kr[1] > 1 and min_M > kr[1] and seq1:
         need = math.ceil(9 * math.log(10) / math.log(min_M / kr[1]))
         if n_multi >= need:
